@@ -7,6 +7,8 @@ if ! git diff --quiet; then echo "/repo working tree is dirty; refusing" >&2; ex
 git apply "$PATCH" || { echo "patch does not apply" >&2; exit 2; }
 trap 'git -C /repo checkout -- . ; git -C /repo clean -fdq -- include src' EXIT
 cd /verif
+# evidence of runs against a patched tree must never overwrite the committed evidence
+export VERIF_EVIDENCE_DIR=/verif/work/patched-evidence
 "$@"
 rc=$?
 exit $rc
